@@ -155,6 +155,14 @@ pub fn run(kv: &Args) -> i32 {
         insts.push(make_inst("inst-nabla0[sid32,delta0,random]", sid, sseed, rseed, choices, tape));
     }
     let degenerate = insts.len() - 1;
+    // honest instances whose check value x is degenerate: all-zero choice vector with an all-zero extension tape (x = 0), and
+    // the all-one counterpart; only their honest messages are used (they are appended after `degenerate`)
+    for (cb, tb, nm) in [(0u8, 0u8, "zero-choices-zero-tape"), (0xff, 0xff, "one-choices-one-tape"), (0, 0xff, "zero-choices-one-tape")] {
+        let mut sid = vec![0u8; 32];
+        r.fill_bytes(&mut sid);
+        let (sseed, rseed, sname) = seed_set(5, seed, 2100 + cb as usize + tb as usize, &mut r);
+        insts.push(make_inst(&format!("inst-{nm}[sid32,{sname}]"), sid, sseed, rseed, [cb; LB], [tb; SB]));
+    }
     for it in &insts {
         writeln!(log, "instance {} sid={} choices={} tape={} random_choices={} enc_keys={}", it.name, hx(&it.sid), hx(&it.choices), hx(&it.tape),
             hx(&it.rseed.random_choices), hx(bytemuck::bytes_of(&it.sseed.otp_enc_keys))).unwrap();
@@ -165,7 +173,7 @@ pub fn run(kv: &Args) -> i32 {
     for (k, it) in insts.iter().enumerate() {
         jobs.push(Job { inst: k, kind: "honest".into(), detail: String::new(), msg: it.honest.clone(), expect: Expect::AcceptHonest, adv: None, model: true });
     }
-    let n_main = insts.len() - 1;
+    let n_main = degenerate;
     // ---- single-bit flips: 3 fields x N positions (model + real)
     let per_field = if thorough { 128 } else { 64 };
     for (field, lo, len) in [("u", 0usize, U_BYTES * 8), ("x", U_BYTES * 8, SB * 8), ("t", (U_BYTES + SB) * 8, ROWS * SB * 8)] {
@@ -225,6 +233,53 @@ pub fn run(kv: &Args) -> i32 {
         let mut m = h.clone(); for k in 0..SB { m.swap(xo + k, xo - SB + k); } v.push(("swap-x-utail", m));
         for (name, m) in v {
             jobs.push(Job { inst: 0, kind: name.split('-').next().unwrap().to_string(), detail: name.into(), msg: m, expect: Expect::Reject, adv: None, model: true });
+        }
+    }
+    // ---- compensating alterations: the same XOR delta put into two (or all sixteen) bytes of one row, or into the same byte
+    //      of two rows -- what survives a comparison that folds differences together (xor instead of or) before testing them
+    {
+        let xo = U_BYTES;
+        let to = U_BYTES + SB;
+        let h = &insts[0].honest;
+        let mut n = 0usize;
+        let mut add = |name: String, m: Vec<u8>, jobs: &mut Vec<Job>| {
+            n += 1;
+            jobs.push(Job { inst: 0, kind: "compensating".into(), detail: name, msg: m, expect: Expect::Reject, adv: None, model: n % 5 == 1 });
+        };
+        for (row, k1, k2, delta) in [(0usize, 0usize, 1usize, 1u8), (0, 3, 15, 0x80), (7, 5, 6, 0xff), (255, 0, 15, 1), (255, 14, 15, 0x10), (128, 0, 8, 0x55)] {
+            let mut m = h.clone();
+            m[to + row * SB + k1] ^= delta;
+            m[to + row * SB + k2] ^= delta;
+            add(format!("t row {row} bytes {k1},{k2} ^= {delta:02x}"), m, &mut jobs);
+        }
+        for (row, delta) in [(0usize, 1u8), (255, 0x80), (100, 0xff)] {
+            let mut m = h.clone();
+            for k in 0..SB { m[to + row * SB + k] ^= delta; }
+            add(format!("t row {row} all bytes ^= {delta:02x}"), m, &mut jobs);
+        }
+        for (r1, r2, k, delta) in [(0usize, 1usize, 0usize, 1u8), (4, 5, 9, 0x80), (0, 255, 15, 0xff), (252, 255, 3, 2), (3, 4, 0, 1)] {
+            let mut m = h.clone();
+            m[to + r1 * SB + k] ^= delta;
+            m[to + r2 * SB + k] ^= delta;
+            add(format!("t rows {r1},{r2} byte {k} ^= {delta:02x}"), m, &mut jobs);
+        }
+        for (k1, k2, delta) in [(0usize, 1usize, 1u8), (0, 15, 0x80), (7, 8, 0xff)] {
+            let mut m = h.clone();
+            m[xo + k1] ^= delta;
+            m[xo + k2] ^= delta;
+            add(format!("x bytes {k1},{k2} ^= {delta:02x}"), m, &mut jobs);
+        }
+        for (row, k1, k2, delta) in [(0usize, 0usize, 1usize, 1u8), (63, 64, 79, 0x80), (31, 10, 70, 0xff)] {
+            let mut m = h.clone();
+            m[row * LPB + k1] ^= delta;
+            m[row * LPB + k2] ^= delta;
+            add(format!("u row {row} bytes {k1},{k2} ^= {delta:02x}"), m, &mut jobs);
+        }
+        for (r1, r2, k, delta) in [(0usize, 1usize, 0usize, 1u8), (0, 63, 79, 0x80)] {
+            let mut m = h.clone();
+            m[r1 * LPB + k] ^= delta;
+            m[r2 * LPB + k] ^= delta;
+            add(format!("u rows {r1},{r2} byte {k} ^= {delta:02x}"), m, &mut jobs);
         }
     }
     // ---- splices from another session / seed set / choice vector (check values not re-derived)
